@@ -1,0 +1,22 @@
+//go:build verif
+
+package config
+
+// Verification accessors for property C14 (build tag "verif" only).
+
+// VerifInjectAsDatabase registers the configuration as the injected database "config"
+// (what the module's start function does).
+func VerifInjectAsDatabase() error { return registerAsDatabase() }
+
+// VerifPushUpdate pushes a database update notification for the option with the given key
+// (what every option change does through handleOptionUpdate).
+func VerifPushUpdate(key string) error {
+	option, err := GetOption(key)
+	if err != nil {
+		return err
+	}
+	option.Lock()
+	defer option.Unlock()
+	pushUpdate(option)
+	return nil
+}
